@@ -8,6 +8,7 @@ import (
 	"fmt"
 	"io"
 	"net/http"
+	"net/http/httptest"
 	"reflect"
 	"strings"
 	"testing"
@@ -253,4 +254,146 @@ func TestVerifC17ServerRaw(t *testing.T) {
 	rep.RequireMin("bodies_equal", 100)
 	rep.RequireMin("status_unset", 20)
 	rep.RequireMin("rpc:BidiStream", 10)
+}
+
+// TestVerifC17Responder: a raw response and the handler's own response are
+// mutually exclusive, for every order of header/flush/write/raw operations.
+func TestVerifC17Responder(t *testing.T) {
+	rep := verifkit.Begin("C17", "responder-sequences", "every sequence of up to 5 handler operations over {set header, Flush, WriteHeader(201), Write, setRawResponse} behind the real rawResponder, served by a real HTTP/1.1 and HTTP/2 test server; oracle: if the raw response was accepted the wire carries exactly it (status, headers, body; no handler header, no handler bytes); if it was refused (the handler had already started its response) the handler's response is intact; distinct = (sequence, transport)")
+	defer rep.Write()
+	raw := &conformancev1.RawHTTPResponse{StatusCode: 418, Headers: []*conformancev1.Header{{Name: "X-Raw", Value: []string{"yes"}}, {Name: "Content-Type", Value: []string{"raw/type"}}},
+		Body: &conformancev1.RawHTTPResponse_Unary{Unary: &conformancev1.MessageContents{Data: &conformancev1.MessageContents_Text{Text: "raw-body"}}}}
+	ops := []byte("HFSWR")
+	var seqs []string
+	var rec func(cur string)
+	rec = func(cur string) {
+		if len(cur) > 0 {
+			seqs = append(seqs, cur)
+		}
+		if len(cur) == 5 {
+			return
+		}
+		for _, o := range ops {
+			rec(cur + string(o))
+		}
+	}
+	rec("")
+	type result struct {
+		rawErrs []error
+	}
+	for _, h2 := range []bool{false, true} {
+		var cur string
+		resCh := make(chan result, 1)
+		handler := http.HandlerFunc(func(w http.ResponseWriter, r *http.Request) {
+			var res result
+			nW := 0
+			for _, o := range cur {
+				switch o {
+				case 'H':
+					w.Header().Set("Content-Type", "handler/type")
+					w.Header().Set("X-Handler", "1")
+				case 'F':
+					if f, ok := w.(http.Flusher); ok {
+						f.Flush()
+					}
+				case 'S':
+					w.WriteHeader(201)
+				case 'W':
+					nW++
+					_, _ = w.Write([]byte(fmt.Sprintf("handler-body-%d;", nW)))
+				case 'R':
+					res.rawErrs = append(res.rawErrs, setRawResponse(r.Context(), raw))
+				}
+			}
+			resCh <- res
+		})
+		svr := httptest.NewUnstartedServer(rawResponder(handler))
+		svr.EnableHTTP2 = h2
+		svr.StartTLS()
+		client := svr.Client()
+		stride := 1
+		if !verifkit.Thorough() && h2 {
+			stride = 4
+		}
+		for si := 0; si < len(seqs); si += stride {
+			cur = seqs[si]
+			rep.Eval(1)
+			rep.DistinctKey(cur, h2)
+			resp, err := client.Get(svr.URL + "/")
+			if err != nil {
+				rep.Inconcl(fmt.Sprintf("sequence %s: %v", cur, err))
+				continue
+			}
+			body, _ := io.ReadAll(resp.Body)
+			resp.Body.Close()
+			res := <-resCh
+			w := map[string]any{"sequence(H=set header,F=flush,S=WriteHeader 201,W=write,R=setRawResponse)": cur, "http2": h2, "status": resp.StatusCode, "content_type": resp.Header.Get("Content-Type"), "x_handler": resp.Header.Get("X-Handler"), "x_raw": resp.Header.Get("X-Raw"), "body": string(body)}
+			// model
+			started, accepted, sawR := false, false, false
+			status, hdrSet, wantBody := 200, false, ""
+			nW := 0
+			committed := false
+			hdrCommitted := false
+			for _, o := range cur {
+				switch o {
+				case 'H':
+					if !committed {
+						hdrSet = true
+					}
+				case 'F', 'W', 'S':
+					if accepted {
+						continue // swallowed: the raw response owns the wire
+					}
+					started = true
+					if !committed {
+						committed = true
+						hdrCommitted = hdrSet
+						if o == 'S' {
+							status = 201
+						}
+					}
+					if o == 'W' {
+						nW++
+						wantBody += fmt.Sprintf("handler-body-%d;", nW)
+					}
+				case 'R':
+					if !sawR {
+						sawR = true
+						accepted = !started
+					}
+				}
+				if o == 'W' && accepted {
+					nW++ // the handler still counts its writes
+				}
+			}
+			if !sawR {
+				continue
+			}
+			gotAccepted := len(res.rawErrs) > 0 && res.rawErrs[0] == nil
+			rep.Count("sequences_with_raw", 1)
+			if gotAccepted != accepted {
+				rep.Violation("raw/responder/acceptance", fmt.Sprintf("sequence %s: setRawResponse accepted=%v, but the handler had started its own response=%v", cur, gotAccepted, started), w)
+				// fallthrough: whatever was decided, the wire must be consistent with the decision
+			}
+			if gotAccepted {
+				rep.Count("raw_accepted", 1)
+				if resp.StatusCode != 418 || resp.Header.Get("X-Raw") != "yes" || resp.Header.Get("Content-Type") != "raw/type" || string(body) != "raw-body" {
+					rep.Violation("raw/responder/accepted-but-not-on-wire", fmt.Sprintf("sequence %s: raw response accepted but the wire shows status %d, X-Raw %q, Content-Type %q, body %q", cur, resp.StatusCode, resp.Header.Get("X-Raw"), resp.Header.Get("Content-Type"), body), w)
+				}
+				if resp.Header.Get("X-Handler") != "" || strings.Contains(string(body), "handler-body") {
+					rep.Violation("raw/responder/handler-output-leaked", fmt.Sprintf("sequence %s: raw response accepted but handler output is on the wire", cur), w)
+				}
+			} else {
+				rep.Count("raw_refused", 1)
+				if resp.StatusCode != status || string(body) != wantBody || (hdrCommitted && resp.Header.Get("X-Handler") != "1") || resp.Header.Get("X-Raw") != "" {
+					rep.Violation("raw/responder/refused-but-response-damaged", fmt.Sprintf("sequence %s: raw response refused but the handler's response is not intact: status %d (want %d), body %q (want %q), X-Handler %q, X-Raw %q", cur, resp.StatusCode, status, body, wantBody, resp.Header.Get("X-Handler"), resp.Header.Get("X-Raw")), w)
+				}
+			}
+		}
+		svr.Close()
+	}
+	rep.Exhaustive = verifkit.Thorough()
+	rep.Sample(map[string]any{"sequence": "HFRW", "expect": "raw refused (headers were flushed); wire: 200, X-Handler: 1, body handler-body-1;"})
+	rep.RequireMin("raw_accepted", 100)
+	rep.RequireMin("raw_refused", 100)
 }
